@@ -60,6 +60,16 @@ def opStoreOps (j : Json) : R Json := do
     let cap ← fldNat j "cap"
     let (_, outs) := runOps (Lru.step cap LocalSt.step) { cache := [], inner := {} } ops
     pure (Json.mkObj [("ok", .arr (outs.map outJson).toArray)])
+  | "dbfs" =>
+    let ct ← match (← fldStr j "commit") with
+      | "FULL" => pure CommitType.full
+      | "LINK_ONLY" => pure CommitType.linkOnly
+      | "NO_COMMIT" => pure CommitType.noCommit
+      | c => .error s!"bad commit type {c}"
+    let (s, outs) := runOps (DbfsSt.step ct Dds.encVal Dds.decVal) {} ops
+    pure (Json.mkObj [("ok", .arr (outs.map outJson).toArray),
+      ("data", .arr (s.data.map (fun kv => Json.str kv.1)).toArray),
+      ("redirect", .arr (s.redirect.map (fun kv => Json.arr #[.str kv.1, .str kv.2])).toArray)])
   | _ => .error s!"bad store kind {kind}"
 
 /-- {"op":"cacheopt","v": null | true | false | int} -/
@@ -80,5 +90,28 @@ def opLoc (j : Json) : R Json := do
   match localLoc p with
   | .ok l => pure (Json.mkObj [("ok", .arr (l.map Json.str).toArray)])
   | .error _ => pure (Json.mkObj [("err", .str "STORE_PATH_NOT_SUPPORTED")])
+
+def decCodec (j : Json) : R Codec := do
+  pure { ref := ← fldStr j "ref", impl := ← fldStr j "impl", types := ← asStrList (← fld j "types") }
+
+/-- {"op":"registry","ops":[["add_codec"|"add_file_codec", codec]…],"queries":[[type|null, ref|null]…]} -/
+def opRegistry (j : Json) : R Json := do
+  let ops ← (← fldArr j "ops").toList.mapM (fun o => do
+    match (← asArr o).toList with
+    | [.str "add_codec", c] => do pure (RegOp.addCodec (← decCodec c))
+    | [.str "add_file_codec", c] => do pure (RegOp.addFileCodec (← decCodec c))
+    | _ => .error "bad registry op")
+  let reg := ops.foldl Registry.apply {}
+  let qs ← (← fldArr j "queries").toList.mapM (fun q => do
+    match (← asArr q).toList with
+    | [t, r] =>
+      let ty := match t with | .str s => some s | _ => none
+      let rf := match r with | .str s => some s | _ => none
+      pure (match reg.getCodec ty rf with
+        | .ok c => Json.str c.impl
+        | .error .protocolNotFound => Json.str "ERR:PROTOCOL_NOT_FOUND"
+        | .error .typeNotRegistered => Json.str "ERR:NO_CODE")
+    | _ => .error "bad query")
+  pure (Json.mkObj [("ok", .arr qs.toArray)])
 
 end Drv
